@@ -668,3 +668,73 @@ PROPS["C09"] = dict(
     suites=[("obj-unmarshal", dict(cmp=cmp_c09, nontrivial=lambda p, i, m: len(p.split("|", 1)[1].split()) == 1 and p.split("|", 1)[1].split()[0][0] in "iuf", shrink=False, timeout=3600,
                                    what="single number tokens into every integer/float kind and interface{}: exact-or-error, against an independent range oracle and the model"))],
 )
+
+
+# ---------------------------------------------------------------------------
+# C01: roundtrip  impl = "ok <hex> <value> eq=<0|1>" | merr | mpanic | "uerr <hex>" | "upanic <hex>"
+#                 model = "ok <hex> <value>" | merr | "uerr <hex>"
+# ---------------------------------------------------------------------------
+
+def rt_json_payload_as_enc(payload):
+    """the float tokens of a roundtrip payload, for the D5b class predicate"""
+    return payload
+
+
+def has_unreadable_integral_float_value(payload):
+    import decimal
+    for m in _re.finditer(r"\(f ([0-9a-f]{16})\)", payload):
+        f = _float_of_bits(m.group(1))
+        if f != f or f in (float("inf"), float("-inf")) or abs(f) >= 1e21 or abs(f) < 1e-6:
+            continue
+        text = format(decimal.Decimal(repr(f)), "f")
+        if "." in text:
+            continue
+        v = int(text)
+        if v > 2 ** 64 - 1 or v < -(2 ** 63):
+            return True
+    return False
+
+
+def cmp_c01(payload, impl, model):
+    if impl.startswith("mpanic") or impl.startswith("upanic"):
+        return viol("Marshal/Unmarshal panicked: %s" % impl[:60])
+    if model.startswith("ok"):
+        if not impl.startswith("ok"):
+            return viol("a representable value did not round-trip: %s (model: marshals to %s and reads back)" % (impl[:80], model.split()[1][:60]))
+        if impl.rsplit(" eq=", 1)[1] != "1":
+            return viol("the value read back is not equal to the original: %s" % impl[:200])
+        if impl.rsplit(" eq=", 1)[0] != model:
+            mi, mm = impl.split(" ", 2), model.split(" ", 2)
+            if mi[1] != mm[1]:
+                return viol("marshalled bytes differ from the model: %s vs %s" % (mi[1][:80], mm[1][:80]))
+            return viol("value read back differs from the model: %s vs %s" % (mi[2][:120], mm[2][:120]))
+        return None
+    if model.startswith("merr"):
+        if impl.startswith("ok"):
+            return viol("an unrepresentable value (model: marshal error) produced output: %s" % impl[:80])
+        return None
+    if model.startswith("uerr"):
+        if impl.startswith("ok"):
+            return mism("model cannot read its own output back but the implementation can: %s" % impl[:80])
+        return viol("the value did not round-trip: its own output cannot be read back (the faithful model agrees): %s" % impl[:80])
+    return mism("model gave no verdict: %s" % model[:60])
+
+
+def kf_d5b_rt(sname, m):
+    return sname in ("roundtrip", "remarshal") and m.get("payload", "").startswith("j") and has_unreadable_integral_float_value(m.get("payload", "")) and \
+        ("did not round-trip" in m.get("detail", "") or "cannot" in m.get("detail", ""))
+
+
+_old_kf = FINDING_CLASSES["json-integral-float-beyond-uint64"]
+FINDING_CLASSES["json-integral-float-beyond-uint64"] = lambda s, m: _old_kf(s, m) or kf_d5b_rt(s, m)
+
+PROPS["C01"] = dict(
+    coq="Properties_C01",
+    level_text="Proved in Coq: token-level round trip of the object layer (marshal, then unmarshal of those tokens into a zero value of the same type succeeds and yields a value that marshals to the same tokens), composed with the codec theorems C02 (CBOR bytes read back as the same tokens) and C03/C05 (JSON). Tied to refmt.MarshalAtlased / UnmarshalAtlased end to end: generated types (reflect.StructOf structs, named types, transforms, unions, tags, sort modes), values with boundary numbers, nil/empty containers, both formats with all whitespace options; bytes and the value read back are compared with the model composition, and the harness checks equality-up-to-wire-limits on the real Go values itself.",
+    level_note="token-level theorem states indistinguishability under re-marshalling (the model has no separate notion of Go equality); Go-level equality with the property's exemptions is checked by the harness on every case. Floats through JSON use the shortest-digits oracle. Trusted as in trusted_base. No axioms.",
+    rule="(format, options, type, value, atlas); non-trivial = output of at least 3 bytes; distinct by payload",
+    trusted_base=_OBJ_TB,
+    assumptions=["values in untyped slots are native kinds or values of tagged registered types (CBOR); JSON cases are restricted to JSON's data model"],
+    suites=[("roundtrip", dict(cmp=cmp_c01, nontrivial=lambda p, i, m: m.startswith("ok") and len(m.split()[1]) >= 6, shrink=False,
+                               what="refmt.MarshalAtlased then refmt.UnmarshalAtlased into a fresh variable: bytes and value vs Marshal.marshal_top |> encoder |> decoder |> Unmarshal.unmarshal_top; Go-level equality with the property's exemptions"))],
+)
